@@ -157,6 +157,16 @@ def main():
             print("\n".join(res["checks"][t]["lines"]))
             if rc4 == 1:
                 break
+        # a change can violate a neighbouring property too: optionally try those checks when the own one misses
+        also = {}
+        ap = os.path.join(VERIF, "tools", "seed_also.json")
+        if os.path.exists(ap):
+            also = json.load(open(ap))
+        if not any(c["exit"] == 1 for c in res["checks"].values()):
+            for other in also.get(sid, []):
+                rc5, o5 = sh("./check %s --tier quick --repo %s" % (other, wt), cwd=VERIF, timeout=4000)
+                res["checks"]["quick:" + other] = {"exit": rc5, "lines": [l for l in o5.split("\n") if l.startswith(("VIOLATION", "  detail", "INCONCLUSIVE", "OK "))][:6]}
+                print("check %s (neighbouring property) -> exit %d" % (other, rc5))
         res["caught"] = any(c["exit"] == 1 for c in res["checks"].values())
         res["verdict"] = "kept"
         return finish(res, src, keep=True)
